@@ -49,7 +49,7 @@ ASSUMPTIONS = [
     "a graceful restart is Aggregator.shutdown() + AggregatorDispatcher.shutdown() (AggregatorServer.lifespan); the drained variant closes the engine sockets first as uvicorn does",
 ]
 TIERS = {
-    "quick": {"stories": 128, "budget_s": 170},
+    "quick": {"stories": 96, "budget_s": 170},
     "thorough": {"stories": 4000, "budget_s": 850},
 }
 T0 = AggHarness.T0
